@@ -21,7 +21,7 @@ func init() {
 		ID:    "C01",
 		Level: "model_checking",
 		Rule: "product: enabled set E (non-empty subset of 3 keys quick / 4 keys thorough) x spelling of the stored key {hex, 0x-hex, upper-hex, mixed, and one key stored under two spellings at once} x threshold 1..min(|E|,3 quick / 4 thorough) x message {empty, 116-byte header, burn message} " +
-			"x ALL sequences of 0..T+1 atoms, atoms per key: honest v0/1, legacy v27/28, high-s twin, honest over another message, honest signature by the mirror key n-d (same X coordinate, not an attester); plus an unknown key, 65 zero bytes, a valid signature with v=2, a 64-byte truncation and a 66-byte padding (misaligning later chunks); " +
+			"x ALL sequences of 0..T atoms and all sequences of T+1 atoms (which can only be length-rejected) whose first or last atom is one of {an honest signature, 65 zero bytes, the 64-byte, the 66-byte atom}; atoms per key: honest v0/1, legacy v27/28, high-s twin, honest over another message, honest signature by the mirror key n-d (same X coordinate, not an attester); plus an unknown key, 65 zero bytes, a valid signature with v=2, a 64-byte truncation and a 66-byte padding (misaligning later chunks); " +
 			"verifier result == reference reading (iff); stateful leg: every (E,T,spelling) reached by enable/threshold transactions and the same atoms submitted through receive-message and replace-message; " +
 			"states = configurations, transitions = verifier/handler executions; distinct_nontrivial = distinct (configuration, atom sequence) pairs whose total length equals 65*T (i.e. that reach signature checking)",
 		Assumptions: []string{"forgery is not attempted: arbitrary byte strings are covered through the atom alphabet and chunk misalignment", "ECDSA/Keccak assumptions as usual",
@@ -255,12 +255,23 @@ func c01Product(r *Run, c c01Config) {
 				r.Class("reject-length")
 			}
 		}
+		// Sequences of T+1 atoms are at least 64(T+1) > 65T bytes long for every T < 64: they can only
+		// be length-rejected. They are enumerated with a reduced atom set at ONE end (first or last
+		// atom one of: an honest signature, 65 zero bytes, a 64-byte and a 66-byte atom) and the full
+		// alphabet everywhere else -- every quorum with something prepended or appended.
+		extra := func(a c01Atom) bool {
+			return a.Name == "K1:honest" || a.Name == "zeros65" || a.Name == "K1:truncated64" || a.Name == "K1:padded66"
+		}
 		rec = func() {
 			eval()
 			if len(seq) == maxL {
 				return
 			}
+			last := len(seq) == maxL-1
 			for _, a := range atoms {
+				if last && len(seq) > 0 && !extra(a) && !extra(seq[0]) {
+					continue
+				}
 				seq = append(seq, a)
 				rec()
 				seq = seq[:len(seq)-1]
